@@ -2,3 +2,4 @@ pub mod curve;
 pub mod supply;
 pub mod demand;
 pub mod uniproc;
+pub mod executor;
